@@ -45,43 +45,57 @@ static cJSON *create_info(void)
 	if (name == NULL) {
 		goto error;
 	}
-	cJSON_AddItemToObject(root, "name", name);
+	if (unlikely(!add_item_to_object(root, "name", name))) {
+		goto error;
+	}
 
 	cJSON *version = cJSON_CreateString(CJET_VERSION);
 	if (version == NULL) {
 		goto error;
 	}
-	cJSON_AddItemToObject(root, "version", version);
+	if (unlikely(!add_item_to_object(root, "version", version))) {
+		goto error;
+	}
 
 	cJSON *protocol_version = cJSON_CreateString("1.0.0");
 	if (protocol_version == NULL) {
 		goto error;
 	}
-	cJSON_AddItemToObject(root, "protocolVersion", protocol_version);
+	if (unlikely(!add_item_to_object(root, "protocolVersion", protocol_version))) {
+		goto error;
+	}
 
 	cJSON *features = cJSON_CreateObject();
 	if (unlikely(features == NULL)) {
 		goto error;
 	}
-	cJSON_AddItemToObject(root, "features", features);
+	if (unlikely(!add_item_to_object(root, "features", features))) {
+		goto error;
+	}
 
 	cJSON *batches = cJSON_CreateTrue();
 	if (unlikely(batches == NULL)) {
 		goto error;
 	}
-	cJSON_AddItemToObject(features, "batches", batches);
+	if (unlikely(!add_item_to_object(features, "batches", batches))) {
+		goto error;
+	}
 
 	cJSON *authentication = cJSON_CreateTrue();
 	if (unlikely(authentication == NULL)) {
 		goto error;
 	}
-	cJSON_AddItemToObject(features, "authentication", authentication);
+	if (unlikely(!add_item_to_object(features, "authentication", authentication))) {
+		goto error;
+	}
 
 	cJSON *fetch = cJSON_CreateString("full");
 	if (fetch == NULL) {
 		goto error;
 	}
-	cJSON_AddItemToObject(features, "fetch", fetch);
+	if (unlikely(!add_item_to_object(features, "fetch", fetch))) {
+		goto error;
+	}
 
 	return root;
 
